@@ -221,6 +221,33 @@ pub fn run(args: &Args) -> i32 {
             }
         }
     }
+    // project meta data a user types: long names, accented characters at every byte offset of the decoded text (both parities),
+    // an empty name, markup characters
+    if let Some(d) = project_dirs().into_iter().find(|d| d.file_name().map(|n| n == "cubo").unwrap_or(false)) {
+        let names: Vec<(&str, String)> = vec![
+            ("accents-even", "ó".repeat(70)),
+            ("accents-odd", format!("a{}", "ñ".repeat(70))),
+            ("long-sentence", "Edificio de viviendas en la calle Alcalá nº 40, 2ª fase: rehabilitación energética integral del bloque y urbanización".to_string()),
+            ("empty", String::new()),
+            ("markup", "Bloque &amp; anexo &lt;B&gt; \"comillas\" 'simples'".to_string()),
+        ];
+        for (tag, pname) in names {
+            let dst = tmp.join(format!("cubo-name-{tag}"));
+            copy_dir(&d, &dst, &[]);
+            if let Ok(Some(f)) = hulc::ctehexml::find_ctehexml(&dst.to_string_lossy()) {
+                if let Ok(text) = std::fs::read_to_string(&f) {
+                    if let (Some(a), Some(b)) = (text.find("<nomPro>"), text.find("</nomPro>")) {
+                        let out = format!("{}<nomPro>{}{}", &text[..a], pname, &text[b..]);
+                        if std::fs::write(&f, out).is_ok() {
+                            for extra in [false, true] {
+                                run_tool(&mut cw, &bindir, &format!("project:cubo:name-{tag}:{}", if extra { "extra" } else { "default" }), &dst.to_string_lossy(), extra);
+                            }
+                        }
+                    }
+                }
+            }
+        }
+    }
     // result files that agree with the computed U of every wall: nothing to report, nothing to override
     for d in project_dirs().into_iter().filter(|d| ["cubo", "casoA", "casoC"].contains(&d.file_name().unwrap().to_string_lossy().as_ref())) {
         let name = d.file_name().unwrap().to_string_lossy().to_string();
